@@ -423,6 +423,16 @@ Definition CyclicSet (nodes : list string) (edges : list (string * string)) (S :
 (* =====================================================================================================
    Part 5 — one type for everything that is probed on the real code
    ===================================================================================================== *)
+(* ---- the operators of an edge template: ir/edge.py:99-115 (EdgeIR.output): after the cycle check of the operator graph,
+        exactly one operator without successor (the output operator of the edge) ---- *)
+Definition is_sink (ops : list opdecl) (p : opdecl) : bool := negb (existsb (feeds p) ops).
+Definition count_sinks (ops : list opdecl) : nat := List.length (filter (is_sink ops) ops).
+Definition check_edge_template (ops : list opdecl) : result :=
+  match check_op_graph ops with
+  | Ok => if Nat.eqb (count_sinks ops) 1 then Ok else Err EPyRates
+  | e => e
+  end.
+
 (* =====================================================================================================
    Part 4b — option values as the strings the caller passes (None = Python None)
    base_backend.py:_validate_solver `solver not in self.SUPPORTED_SOLVERS`; the if-chains of `_solve` (base 694-706,
@@ -574,7 +584,8 @@ Inductive probe :=
   | PNodeValue (net : network) (p : path)
   | POpGraph (ops : list opdecl)
   | PHier (k : hkind) (depth : nat) (hnet : hnetwork) (p : path)
-  | POption (k : optkind) (v : optval).
+  | POption (k : optkind) (v : optval)
+  | PEdgeTemplate (ops : list opdecl).
 
 Definition impl (p : probe) : result :=
   match p with
@@ -594,6 +605,7 @@ Definition impl (p : probe) : result :=
   | POpGraph ops => check_op_graph ops
   | PHier k depth hnet p => hier_result k depth hnet p
   | POption k v => option_result k v
+  | PEdgeTemplate ops => check_edge_template ops
   end.
 
 Definition Path3 (net : network) (p : path) : Prop := Present net p /\ List.length p = 3.
@@ -626,6 +638,7 @@ Definition WellFormed (p : probe) : Prop :=
       end
   | POption k v =>               (* the value is one the option has, and what runs is what it asks for *)
       option_requested k v <> None /\ option_effect k v = option_requested k v
+  | PEdgeTemplate ops => (~ exists S, CyclicSet (map oname ops) (op_edges ops) S) /\ count_sinks ops = 1
   end.
 Definition path3b (net : network) (p : path) : bool := presentb net p && Nat.eqb (List.length p) 3.
 Definition node_value_targetb (net : network) (p : path) : bool :=
@@ -657,6 +670,8 @@ Definition wellformedb (p : probe) : bool :=
       | Some r, Some e => String.eqb e r
       | _, _ => false
       end
+  | PEdgeTemplate ops =>
+      match toposort (map oname ops) (op_edges ops) with Some _ => Nat.eqb (count_sinks ops) 1 | None => false end
   end.
 
 (* representation invariant of the probe (dictionary keys are unique) *)
